@@ -185,6 +185,8 @@ def muxStep (d : MuxDrv) (toks : List String) : Option (MuxDrv × String) :=
 def step (s : State) (toks : List String) : State × String :=
   match toks with
   | "udp" :: rest => (s, (handleUdp rest).getD "bad-op")
+  | ["consts"] =>
+    (s, s!"{UdpMatch.MAX_EXAMINED} {Mux.QOS_MAX_RECEIVE_MSGS} {Mux.ID_TRIES} {Mux.CHAN_CAP} {Mux.OUT_CAP}")
   | "begin" :: "mux" :: t :: m :: st :: _ =>
     match t.toNat?, m.toNat?, parseBool st with
     | some t, some m, some st => (some { s := Mux.init t m, stalled := st }, "ok")
